@@ -18,8 +18,15 @@ ENC_OK = sockrun.ENC_OK if hasattr(sockrun, "ENC_OK") else 0
 def scripts(rng: random.Random, n: int):
     for _ in range(n):
         s = [("open",), ("adv", 1)]
-        mode = rng.randrange(4)
-        if mode == 3:
+        mode = rng.randrange(6)
+        if mode >= 4:
+            # a send from another task lands in the teardown window (the client has called close() on its
+            # transport and is waiting for it); what tears the link down varies
+            k, pol = rng.choice([0, 1, 4]), rng.choice([0, 0, 1, 3])
+            s.append(("sendclose", k, pol))
+            s.append(rng.choice([("reset",), ("reset",), ("eof",), ("rst",), ("bad", rng.randrange(3))]))
+            s += [("adv", 5), ("adv", 50), ("send", rng.choice([0, 1, 4]), 0), ("adv", 50)]
+        elif mode == 3:
             # an outage; two messages are queued shortly before the link comes back; the link comes back
             # under back-pressure, so the first write stays in drain() until after the second message's
             # lifetime has ended: the second must then be dropped, not written late
@@ -56,20 +63,32 @@ def monitor(gen: int, script, out, pid0: int) -> list[str]:
     now = 0
     next_pid = pid0
     acc = {}            # pid -> (k, accepted at, lifetime, order)
+    retries_of = {}
     order = 0
     written = {}
     last_order = {}
+    pending_close = None
+    must_write_from = None
     for idx, (st, evs) in enumerate(zip(script, out)):
         sends = []
         if st[0] == "send":
             sends = [(st[1], st[2])]
         elif st[0] == "send2":
             sends = [(st[1], st[2]), (st[3], st[4])]
+        elif st[0] == "sendclose":
+            pending_close = (st[1], st[2])
+            continue
+        if pending_close is not None and any(e[0] == "hooksend" for e in evs):
+            # the hooked send ran when the client closed its transport: accepted before this step's own sends
+            sends = [pending_close] + sends
+            must_write_from = order
+            pending_close = None
         for k, pol in sends:
             if cls[k] == 1:          # no encoder: NotImplementedError before a packet id is taken
                 continue
             _, life = sockrun.policy_params(pol) if hasattr(sockrun, "policy_params") else (None, int(sockrun.POLICIES[pol].max_lifetime * 1024))
             acc[next_pid] = (k, now, life, order)
+            retries_of[next_pid] = sockrun.policy_params(pol)[0]
             order += 1
             next_pid = (next_pid + 1) % 256
         for e in evs:
@@ -92,6 +111,13 @@ def monitor(gen: int, script, out, pid0: int) -> list[str]:
                 last_order[c] = max(last_order.get(c, -1), a[3])
             elif e[0] in ("garbled", "unhandled", "sendexc", "crash"):
                 bad.append(f"step {idx}: {e}")
+    if must_write_from is not None:
+        # the link came back at once and nothing expired: every message accepted from the teardown window on,
+        # sent with a policy that survives one failed write, must have reached the wire (exactly once)
+        for pid, (k, at, life, o) in acc.items():
+            if o >= must_write_from and written.get(pid, 0) != 1 and retries_of.get(pid, 0) >= 1:
+                bad.append(f"packet id {pid} (message {k}) was accepted in or after the teardown window and written "
+                           f"{written.get(pid, 0)} times")
     return bad
 
 
@@ -105,9 +131,9 @@ def run(ck: common.Check, prop: str, tier: str) -> None:
             ck.count()
             bad = monitor(gen, script, out, pid0)
             if prop == "C01":
-                bad = [b for b in bad if "lifetime" not in b]
+                bad = [b for b in bad if "lifetime ended" not in b]
             else:
-                bad = [b for b in bad if "lifetime" in b or "times" in b]
+                bad = [b for b in bad if "lifetime ended" in b or "times (no write fault" in b]
             if bad:
                 ck.violation("; ".join(bad[:3]),
                              {"kind": "socket-script-backpressure", "gen": gen, "script": [list(x) for x in script],
